@@ -227,8 +227,8 @@ pub fn run_cgr_files(kmer: bool, tier: &str, rng: &mut Rng, model: &Model, rep: 
             let p = rng.below(recs.len() as u64) as usize;
             recs[p].push(b'N');
         }
-        let container = if rng.chance(1, 5) { "fq" } else { "fa" }.to_string();
-        let recs = if container == "fq" { recs.into_iter().map(|r| if r.is_empty() { b"A".to_vec() } else { r }).collect() } else { recs };
+        let container = match rng.below(10) { 0 | 1 => "fq", 2 => "fagzm", 3 => "fagz", 4 => "fawrap:7", 5 => "fqwrap:5", _ => "fa" }.to_string();
+        let recs = if container.starts_with("fq") { recs.into_iter().map(|r| if r.is_empty() { b"A".to_vec() } else { r }).collect() } else { recs };
         let c = CgrFileCase {
             recs,
             k,
